@@ -137,8 +137,8 @@ fn pass0_internal(
                             line
                         );
                     }
-                    let segments = macro_expand(line, macro_name, ops, context, macroses)?;
-                    calls.1 += segments.iter().map(|x| x.items.len()).sum::<usize>();
+                    // every line of the body is read again, whether it leaves an item or not
+                    calls.1 += macroses.get(macro_name).map_or(0, |body| body.len());
                     if calls.1 > MAX_EXPANDED_ITEMS {
                         bail!(
                             "macro calls expand to more than {} lines at {} on {}",
@@ -147,6 +147,7 @@ fn pass0_internal(
                             line
                         );
                     }
+                    let segments = macro_expand(line, macro_name, ops, context, macroses)?;
                     if !segments.is_empty() {
                         let (current_address, current_type) = {
                             let current_segment = context.last_segment().unwrap();
